@@ -38,7 +38,7 @@ Proof.
   - unfold run_tx. destruct (validate_basic m); [|discriminate].
     destruct (handle _ m) as [x| |] eqn:H; try discriminate. intros [= <-].
     apply handle_non_swap_keeps in H; [|apply Hm; reflexivity]. keeps_solve.
-  - intros [= <-]. apply (fold_left_inv (fun x => supply x = supply s /\ swaps x = swaps s)); [|split; reflexivity].
+  - destruct (forallb pchange_valid _); [|discriminate]. intros [= <-]. apply (fold_left_inv (fun x => supply x = supply s /\ swaps x = swaps s)); [|split; reflexivity].
     intros x c Hx. pose proof (apply_pchange_keeps x c). keeps_solve.
   - destruct (end_block _) as [x| |] eqn:H; try discriminate. intros [= <-]. apply end_block_keeps in H. keeps_solve.
 Qed.
